@@ -16,7 +16,7 @@ def apply_contract(it, c, fi, args, kwargs) -> V:
     old_env = Env(None, clauses.spec_env(it))
     for k, v in env.vars.items():
         old_env.vars[k] = snapshot(v)
-    env.set("__old_env__", OldEnv(old_env, (it.fs_bin, it.fs_txt, it.fs_exists)))
+    env.set("__old_env__", OldEnv(old_env, it.fs.mark()))
     # 1. preconditions are obligations of the caller
     for cl in c.requires_:
         goal = clauses.eval_clause(it, cl, env)
@@ -45,7 +45,12 @@ def apply_contract(it, c, fi, args, kwargs) -> V:
     clauses.eval_lets(it, c.post_lets, env)
     for cl in c.returns_:
         if cl.extra.get("caller_assumes", True):
-            it.assume(clauses.eval_clause(it, cl, env))
+            g = clauses.eval_clause(it, cl, env)
+            it.assume(g)
+            lit = _pinned_literal(g, res)
+            if lit is not None:
+                res = lit
+                env.set("result", res)
     it.trace.append(("call", c.func))
     return res
 
@@ -77,4 +82,21 @@ def _declared_attr_type(c, parts):
                 else:
                     return None
             return cur
+    return None
+
+
+def _pinned_literal(goal, res):
+    """If the assumed postcondition is `result == <literal>`, use the literal itself as the result value."""
+    from .values import VInt, VStr, VBool
+    if not isinstance(res, (VInt, VStr)) or res.conc is not None:
+        return None
+    g = z3.simplify(goal)
+    if z3.is_eq(g):
+        a, b = g.arg(0), g.arg(1)
+        for x, y in ((a, b), (b, a)):
+            if z3.eq(x, res.e):
+                if z3.is_int_value(y):
+                    return VInt(y.as_long())
+                if z3.is_string_value(y):
+                    return VStr(y.as_string())
     return None
